@@ -414,7 +414,8 @@ func (c *Client) Auth(a sasl.Client) error {
 }
 
 // Mail issues a MAIL command to the server using the provided email address.
-// If the server supports the 8BITMIME extension, Mail adds the BODY=8BITMIME
+// If opts.Body is set, Mail adds the BODY parameter with that value; otherwise,
+// if the server supports the 8BITMIME extension, Mail adds the BODY=8BITMIME
 // parameter.
 // This initiates a mail transaction and is followed by one or more Rcpt calls.
 //
@@ -437,7 +438,21 @@ func (c *Client) Mail(from string, opts *MailOptions) error {
 	// A high enough power of 2 than 510+14+26+11+9+9+39+500
 	sb.Grow(2048)
 	fmt.Fprintf(&sb, "MAIL FROM:<%s>", from)
-	if _, ok := c.ext["8BITMIME"]; ok {
+	if opts != nil && opts.Body != "" {
+		switch opts.Body {
+		case Body7Bit, Body8BitMIME:
+			if _, ok := c.ext["8BITMIME"]; !ok {
+				return errors.New("smtp: server does not support 8BITMIME")
+			}
+		case BodyBinaryMIME:
+			if _, ok := c.ext["BINARYMIME"]; !ok {
+				return errors.New("smtp: server does not support BINARYMIME")
+			}
+		default:
+			return errors.New("smtp: Unknown BODY parameter value")
+		}
+		fmt.Fprintf(&sb, " BODY=%s", string(opts.Body))
+	} else if _, ok := c.ext["8BITMIME"]; ok {
 		sb.WriteString(" BODY=8BITMIME")
 	}
 	if _, ok := c.ext["SIZE"]; ok && opts != nil && opts.Size != 0 {
